@@ -348,6 +348,20 @@ func runFilter(cfg Cfg) {
 				q := Pick(r, pool)
 				probeAt(q.net&maskN(q.ones)+uint32(r.U64())&^maskN(q.ones), r.Chance(35))
 			}
+			// prefix lengths that were not in use when the filter switched representation
+			for ones := 1; ones <= 32; ones++ {
+				if ones >= 17 && ones <= 24 {
+					continue
+				}
+				p := pfx{uint32(60+ones)<<24 | uint32(r.Intn(1<<24)), ones}
+				ipb, mb := []byte(ip4(p.net)), []byte(net.CIDRMask(p.ones, 32))
+				err := f.Add(&net.IPNet{IP: ipb, Mask: mb})
+				s.Line("add "+hx(ipb)+" "+hx(mb), errName(err)+" "+filterBrief(f))
+				hist = append(hist, filterOp{"add", hx(ipb), hx(mb)})
+				spec[pfx{p.net & maskN(p.ones), p.ones}] = true
+				probeAt(p.net, r.Chance(35))
+				probeAt(p.net&maskN(ones)-1, false)
+			}
 			s.Count("history.second-life")
 		}
 		s.Line("dump", filterDump(f))
